@@ -1071,9 +1071,9 @@ func (e *Engine) havocLoop(st *State, m *modset, extraHeaps []string) {
 				}
 			}
 		}
-		if v, ok := st.vars[e.trackFlag(n)]; ok {
-			st.vars[e.trackFlag(n)] = e.havocValue("h_called", v.Typ)
-		}
+		// whether a tracked call has happened is unknown at the head of a loop that makes such calls - also when
+		// none had happened before the loop (without this, called("f") would read as false after the loop)
+		st.vars[e.trackFlag(n)] = e.havocValue("h_called", types.Typ[types.Bool])
 	}
 	for obj := range m.ghost {
 		nk := e.ghostKey("ncalls", obj)
